@@ -101,6 +101,15 @@ pub struct D {
 
 const T45: f64 = 1.5e-45;
 
+/// Product that treats `0 * inf` as 0 (an exactly-zero factor contributes nothing).
+fn zmul(a: f64, b: f64) -> f64 {
+    if a == 0.0 || b == 0.0 {
+        0.0
+    } else {
+        a * b
+    }
+}
+
 impl D {
     pub fn var(v: f64) -> D {
         D { v, d: 1.0, m: 1.0, e: 0.0, de: 0.0 }
@@ -112,8 +121,8 @@ impl D {
             v,
             d: f1 * self.d,
             m: f1.abs() * self.m,
-            e: f1.abs() * self.e + f2 * self.e * self.e + rv + T45,
-            de: f1.abs() * self.de + self.d.abs() * (f2 * self.e + r1) + EPS32 * (f1 * self.d).abs() + T45 * (self.d != 0.0) as u8 as f64,
+            e: zmul(f1.abs(), self.e) + zmul(f2, self.e * self.e) + rv + T45,
+            de: zmul(f1.abs(), self.de) + zmul(self.d.abs(), zmul(f2, self.e) + r1) + EPS32 * (f1 * self.d).abs() + T45 * (self.d != 0.0) as u8 as f64,
         }
     }
 }
@@ -152,8 +161,8 @@ impl Sc for D {
             v,
             d: t1 + t2,
             m: self.v.abs() * o.m + o.v.abs() * self.m,
-            e: self.v.abs() * o.e + o.v.abs() * self.e + self.e * o.e + EPS32 * v.abs() + T45,
-            de: self.v.abs() * o.de + o.d.abs() * self.e + o.v.abs() * self.de + self.d.abs() * o.e + self.e * o.de + o.e * self.de + 2.0 * EPS32 * (t1.abs() + t2.abs()),
+            e: zmul(self.v.abs(), o.e) + zmul(o.v.abs(), self.e) + zmul(self.e, o.e) + EPS32 * v.abs() + T45,
+            de: zmul(self.v.abs(), o.de) + zmul(o.d.abs(), self.e) + zmul(o.v.abs(), self.de) + zmul(self.d.abs(), o.e) + zmul(self.e, o.de) + zmul(o.e, self.de) + 2.0 * EPS32 * (t1.abs() + t2.abs()),
         }
     }
     fn div(self, o: D) -> D {
@@ -166,8 +175,8 @@ impl Sc for D {
             v: r,
             d: dr,
             m: o.m / (b * b),
-            e: o.e / (b.abs() * den) + EPS32 * r.abs(),
-            de: o.de / (den * den) + 2.0 * o.d.abs() * o.e / (den * den * den) + EPS32 * dr.abs(),
+            e: zmul(o.e, 1.0 / (b.abs() * den)) + EPS32 * r.abs(),
+            de: zmul(o.de, 1.0 / (den * den)) + 2.0 * zmul(o.d.abs() * o.e, 1.0 / (den * den * den)) + EPS32 * dr.abs(),
         };
         self.mul(recip)
     }
